@@ -206,7 +206,8 @@ def s5(ctx, rep, clause="S5"):
                     (f" [{_status_of(ctx, f, n2)}]" if meth == "on_trial_error" else ""), f, c, "")
     # the failure notifications depend on the status alone (no further guard may swallow a failure)
     for n2, c in ctx.calls_in(f, method="on_trial_error", recv="TrialScheduler"):
-        at = _dom_atoms(cfg, n2)
+        from .common import drop_implied
+        at = drop_implied(_dom_atoms(cfg, n2))
         st_ = _status_of(ctx, f, n2)
         allowed = [a for a in at if (a[0] == "eq" and a[3] is True and ("Status.failed" in (a[1], a[2]) or "Status.stopped" in (a[1], a[2])))
                    or (a[0] == "in" and a[3] is False and "trials_scheduler_stopped" in a[2] and st_ == "stopped")]
@@ -292,7 +293,7 @@ def s5b(ctx, rep, clause="S5"):
                 base = ast.parse(other, mode="eval").body
                 while isinstance(base, ast.Subscript):
                     base = base.value
-                src = deref(f, base)
+                src = base if isinstance(base, ast.Name) and base.id == rvn[0] else deref(f, base)
         oko = src is not None and any(isinstance(y, ast.Name) and y.id == rvn[0] for y in ast.walk(src))
     rep.put(oko, clause, "taint", "Tuner._update_running_trials: 'paused' overrides 'completed' | the scheduler paused the trial in this call", f,
             ov[0].ast if ov else None, "", "the override is decided on another record than the decisions taken in this call (the backend's status map never "
